@@ -233,7 +233,14 @@ pub fn cache_async(attr: TokenStream, item: TokenStream) -> TokenStream {
     // Extract return type
     let ret_type = match &sig.output {
         syn::ReturnType::Default => quote! { () },
-        syn::ReturnType::Type(_, ty) => quote! { #ty },
+        syn::ReturnType::Type(_, ty) => {
+            // `-> (T)` is the same type as `-> T` (the Result detection below goes by the spelling)
+            let mut ty: &syn::Type = ty;
+            while let syn::Type::Paren(p) = ty {
+                ty = &p.elem;
+            }
+            quote! { #ty }
+        }
     };
 
     // Collect function arguments for key generation
